@@ -49,7 +49,9 @@ Definition chk_C07 (c o : value) : bool :=
              match fs_file fs p with
              | Some content => (st =? 200) && beq body content
              | None => if fs_is_dir fs p && negb (match p with [] => true | _ => false end) && seg_prefix (lexical (abs_segs root)) p
-                       then (st =? 200) else true
+                       then (st =? 200)
+                       else if fs_is_dir fs p then true
+                       else (st =? 404)        (* names nothing below the root: whatever else the process could reach by that name *)
              end
            else true)
       | _, None => false
@@ -68,6 +70,7 @@ Fixpoint chk_C07_each (tree : list value) (rootspec ver : bytes) (reqs obs : lis
       chk_C07 (VL [VL tree; VB rootspec; VB path; VL hdrs; VB ver]) o && chk_C07_each tree rootspec ver r os
   | VL [VB path; VL hdrs; VB newroot] :: r, o :: os =>
       chk_C07 (VL [VL tree; VB newroot; VB path; VL hdrs; VB ver]) o && chk_C07_each tree newroot ver r os
+  | VL [VI 1; VL add; VL rem] :: r, _ :: os => chk_C07_each (mutate_tree tree add rem) rootspec ver r os
   | _, _ => false
   end.
 Definition chk_C07m (c o : value) : bool :=
@@ -168,6 +171,7 @@ Fixpoint chk_C08_each (tree : list value) (rootspec ver : bytes) (reqs metas obs
   | [], _, [] => true
   | VL [VB path; VL hdrs] :: r, m :: ms, o :: os =>
       chk_C08 (VL [VL tree; VB rootspec; VB path; VL hdrs; VB ver; m]) o && chk_C08_each tree rootspec ver r ms os
+  | VL [VI 1; VL add; VL rem] :: r, _ :: ms, _ :: os => chk_C08_each (mutate_tree tree add rem) rootspec ver r ms os
   | _, _, _ => false
   end.
 
